@@ -101,7 +101,70 @@ def make_settings(input=None, rst=None, output=None):
     d["input"].update(input or {})
     d["rst"].update(rst or {})
     d["output"].update(output or {})
-    return dict_to_settings(d)
+    st = dict_to_settings(d)
+    try:
+        st._vf_overrides = {"input": dict(input or {}), "rst": dict(rst or {}), "output": dict(output or {})}
+    except Exception:      # noqa: BLE001 - a frozen/slotted Settings class: the pipeline modes then fall back to the Documenter
+        pass
+    return st
+
+
+# Which way document_text() takes through CMinx for the current case. "documenter": the real Documenter is called directly
+# (fast path). "main-o": the text goes through cminx.main([file, -s <settings file>, -o <dir>]) and the page is read back
+# from the output directory. "main-stdout": through cminx.main([file, -s ...]) without -o; the page is what was printed.
+# core.py chooses the mode from the case index (entry-level checks only), so a replay takes the same way.
+PIPELINE = "documenter"
+PIPELINE_STATS = {"documenter": 0, "main-o": 0, "main-stdout": 0}
+
+
+def pipeline_for(idx):
+    return {7: "main-o", 13: "main-o", 17: "main-stdout"}.get(idx % 20, "documenter")
+
+
+def _through_main(text, settings, stem, encoding, newline, stdout_mode):
+    import yaml
+    with sandbox() as sb:
+        src = os.path.join(sb, "in", stem + ".cmake")
+        os.makedirs(os.path.dirname(src))
+        with open(src, "w", encoding=encoding, newline=newline) as f:
+            f.write(text)
+        home = os.path.join(sb, "home")
+        os.makedirs(os.path.join(home, ".config", "cminx"))
+        argv = [src]
+        ov = getattr(settings, "_vf_overrides", None) if settings is not None else None
+        if ov and any(ov.values()):
+            cfg = os.path.join(sb, "cfg.yaml")
+            with open(cfg, "w", encoding="utf-8") as f:
+                yaml.safe_dump({k: v for k, v in ov.items() if v}, f, allow_unicode=True)
+            argv += ["-s", cfg]
+        out = os.path.join(sb, "out")
+        if not stdout_mode:
+            argv += ["-o", out]
+        o = run_main(argv, cwd=sb, home=home)
+        import re as _re
+        diag = _re.search(r"(?m)^\d{4}-\d\d-\d\d \d\d:\d\d:\d\d,\d{3} - [\w.]+ - (WARNING|ERROR|CRITICAL) - ", o.stdout or "")
+        if stdout_mode and o.ok and (o.logs or diag):
+            # the input triggered diagnostics (e.g. a dangling doccomment): CMinx prints them to standard output as well,
+            # which C18 allows. The printed text is then not just the page -- take the -o way instead.
+            PIPELINE_STATS["main-stdout"] -= 1
+            PIPELINE_STATS["main-o"] += 1
+            stdout_mode = False
+            argv += ["-o", out]
+            o = run_main(argv, cwd=sb, home=home)
+        if o.ok:
+            if stdout_mode:
+                # print() appends one newline to the page
+                o.value = o.stdout[:-1] if o.stdout.endswith("\n") else o.stdout
+            else:
+                pg = os.path.join(out, stem + ".rst")
+                if os.path.exists(pg):
+                    with open(pg, encoding="utf-8", newline="") as f:
+                        o.value = f.read()
+                else:
+                    o.ok = False
+                    o.exc = FileNotFoundError(f"cminx.main wrote no page {stem}.rst (files: {sorted(os.listdir(out)) if os.path.isdir(out) else None})")
+                    o.exc_where = "main-o:page-missing"
+        return o
 
 
 def guarded(fn, *a, **kw):
@@ -139,6 +202,14 @@ def document_text(text, settings=None, title="T", module="M", tmpdir=None, encod
     """Write `text` to a file and run the real Documenter on it. Returns (Outcome, documenter)."""
     cminx()
     from cminx.documenter import Documenter
+    mode = PIPELINE
+    # the CLI derives title and module name from the file name: only cases whose requested title and module name can be
+    # had that way take the long way round
+    stem = module if module != "M" else title
+    if mode != "documenter" and tmpdir is None and stem.isidentifier() and (settings is None or hasattr(settings, "_vf_overrides")):
+        PIPELINE_STATS[mode] += 1
+        return _through_main(text, settings, stem, encoding, newline, mode == "main-stdout"), None
+    PIPELINE_STATS["documenter"] += 1
     d = tmpdir or tempfile.mkdtemp(prefix="vfdoc_")
     path = os.path.join(d, "m.cmake")
     try:
